@@ -1,6 +1,6 @@
 (* C19 — proofs, part 1: MPIGuard (agreement, termination, re-arming).  Futures: C19_Proofs_Fut.v *)
 From Coq Require Import List Bool Arith NArith Lia.
-From DuneV Require Import C19_Model C19_Spec.
+From DuneV Require Import Params_gen C19_Model C19_Spec.
 Import ListNotations.
 
 (* ------------------------------------------------------------------------------------------ *)
@@ -356,7 +356,7 @@ Lemma P_rearm : forall rest pc,
 Proof.
   intros rest pc. repeat split.
   - eexists. reflexivity.
-  - intros c sum Hs. cbn [c19_resume]. unfold c19_finalize_throws.
+  - intros c sum Hs. cbn [c19_resume]. unfold c19_finalize_throws, c19_param_throw_threshold.
     apply Nat.ltb_lt in Hs. rewrite Hs. reflexivity.
 Qed.
 
@@ -379,3 +379,203 @@ Lemma P_example_deadlock :
   c19_guard_scope true [[C19_FinOk; C19_Throw]; [C19_FinOk; C19_React; C19_FinOk]]
   = C19_Deadlock [(Some (C19_UserExc 1), 1); (None, 2)].
 Proof. vm_compute. reflexivity. Qed.
+
+(* ------------------------------------------------------------------------------------------ *)
+(** * default arguments (values re-read from the source) *)
+
+Lemma P_finalize_default : forall rest pc a, c19_run (C19_FinDefault :: rest) pc a = c19_run (C19_FinOk :: rest) pc a.
+Proof. reflexivity. Qed.
+
+Lemma P_ctor_default : c19_ctor_active None = true /\ forall a, c19_ctor_active (Some a) = a.
+Proof. split; reflexivity. Qed.
+
+Lemma P_dtor_reports_failure : forall pc,
+  c19_run [] pc true = C19_AtColl 1 (C19_KDtor C19_Normal) /\
+  c19_run [] pc false = C19_Done C19_Normal /\
+  (forall rest, c19_run (C19_Throw :: rest) pc true = C19_AtColl 1 (C19_KDtor (C19_UserExc pc))) /\
+  (forall rest, c19_run (C19_Throw :: rest) pc false = C19_Done (C19_UserExc pc)).
+Proof. intros pc. repeat split. Qed.
+
+(* ------------------------------------------------------------------------------------------ *)
+(** * the prescription, read declaratively *)
+
+Lemma first_fail_None_intro : forall n outs k0, (forall k, k0 <= k < k0 + n -> c19_nfail outs k = 0) -> c19_first_fail outs k0 n = None.
+Proof.
+  induction n as [|n IH]; intros outs k0 H; [reflexivity|].
+  rewrite first_fail_unfold. rewrite (H k0) by lia. cbn [Nat.ltb Nat.leb]. apply IH. intros k Hk. apply H. lia.
+Qed.
+
+Lemma first_fail_Some_intro : forall n outs k0 k, k0 <= k < k0 + n -> 0 < c19_nfail outs k ->
+  (forall j, k0 <= j < k -> c19_nfail outs j = 0) -> c19_first_fail outs k0 n = Some k.
+Proof.
+  induction n as [|n IH]; intros outs k0 k Hk Hf Hz; [lia|].
+  rewrite first_fail_unfold. destruct (Nat.eq_dec k k0) as [->|Hne].
+  - apply Nat.ltb_lt in Hf. rewrite Hf. reflexivity.
+  - rewrite (Hz k0) by lia. cbn [Nat.ltb Nat.leb]. apply IH; [lia|exact Hf|]. intros j Hj. apply Hz. lia.
+Qed.
+
+Lemma nfail_pos_iff : forall outs k, 0 < c19_nfail outs k <-> exists r, r < length outs /\ c19_outcome_at outs r k <> C19_Ok.
+Proof.
+  intros outs k. split.
+  - intros H. destruct (Nat.eq_dec (c19_nfail outs k) 0) as [E|E]; [lia|].
+    (* not all Ok *)
+    unfold c19_nfail, c19_outcome_at in *. clear H. induction outs as [|os outs IH]; [simpl in E; congruence|].
+    cbn [filter] in E. destruct (c19_is_ok (nth k os C19_Ok)) eqn:Eo; cbn [negb] in E.
+    + destruct (IH E) as (r & Hr & Hn). exists (S r). split; [simpl; lia|exact Hn].
+    + exists 0. split; [simpl; lia|]. cbn [nth]. intros Hc. rewrite Hc in Eo. discriminate.
+  - intros (r & Hr & Hn). destruct (Nat.eq_dec (c19_nfail outs k) 0) as [E|E]; [|lia].
+    exfalso. apply Hn. apply (proj1 (P_nfail_zero_iff outs k) E r Hr).
+Qed.
+
+Lemma nth_map_seq : forall (A : Type) (f : nat -> A) (d : A) n r, r < n -> nth r (map f (seq 0 n)) d = f r.
+Proof.
+  intros A f d n r Hr. rewrite (nth_indep _ d (f 0)) by (rewrite map_length, seq_length; exact Hr).
+  rewrite (map_nth f (seq 0 n) 0 r). rewrite seq_nth by exact Hr. reflexivity.
+Qed.
+
+Lemma P_agreement_declarative : forall (act0 : bool) (S : nat) (outs : list (list c19_outcome)) d,
+  1 <= S -> Forall (fun os => length os = S) outs ->
+  exists res, c19_sections_run act0 outs = C19_Finished res /\ length res = length outs /\
+    ((forall r k, r < length outs -> k < S -> c19_outcome_at outs r k = C19_Ok) ->
+       forall r, r < length outs -> nth r res d = (Some C19_Normal, S)) /\
+    (forall k, k < S -> (exists r, r < length outs /\ c19_outcome_at outs r k <> C19_Ok) ->
+       (forall j r, j < k -> r < length outs -> c19_outcome_at outs r j = C19_Ok) ->
+       forall r, r < length outs ->
+       nth r res d = (Some (if c19_is_throw (c19_outcome_at outs r k) then C19_UserExc (c19_pc_of act0 k)
+                            else C19_GuardError (c19_pc_of act0 k) (c19_nfail outs k)), k + 1)).
+Proof.
+  intros act0 S outs d HS Hlen. eexists. split; [apply (P_agreement act0 S outs HS Hlen)|].
+  split; [rewrite map_length, seq_length; reflexivity|]. split.
+  - intros Hok r Hr. rewrite nth_map_seq by exact Hr. unfold c19_spec_exit.
+    rewrite (first_fail_None_intro S outs 0); [reflexivity|].
+    intros k Hk. apply (proj2 (P_nfail_zero_iff outs k)). intros r' Hr'. apply Hok; [exact Hr'|lia].
+  - intros k Hk Hex Hbefore r Hr. rewrite nth_map_seq by exact Hr. unfold c19_spec_exit.
+    rewrite (first_fail_Some_intro S outs 0 k); [reflexivity|lia|apply (proj2 (nfail_pos_iff outs k) Hex)|].
+    intros j Hj. apply (proj2 (P_nfail_zero_iff outs j)). intros r' Hr'. apply Hbefore; [lia|exact Hr'].
+Qed.
+
+(* all processes of the communicator take part in the same number of collectives (whatever their outcome): the next scope's
+   collectives are matched with each other *)
+Lemma P_collectives_aligned : forall act0 S outs r r',
+  snd (c19_spec_exit act0 S outs r) = snd (c19_spec_exit act0 S outs r').
+Proof. intros. unfold c19_spec_exit. destruct (c19_first_fail outs 0 S); reflexivity. Qed.
+
+
+(* sequential scopes *)
+Lemma P_sequential : forall (scopes : list (bool * list (list c19_outcome))) (Ss : list nat),
+  Forall2 (fun sc S => 1 <= S /\ Forall (fun os => length os = S) (snd sc)) scopes Ss ->
+  c19_scopes_run scopes = map (fun p => c19_expected (fst (fst p)) (snd p) (snd (fst p))) (combine scopes Ss).
+Proof.
+  intros scopes Ss H. induction H as [|sc S scopes Ss (HS & Hl) _ IH]; [reflexivity|].
+  cbn [c19_scopes_run map combine fst snd]. f_equal; [|exact IH]. apply P_agreement; assumption.
+Qed.
+
+(* ------------------------------------------------------------------------------------------ *)
+(** * nested guards *)
+
+
+Lemma outer_outcome_expected : forall S g,
+  map (fun o => [c19_outer_outcome o]) (c19_obs_of (c19_expected true S g)) =
+  map (fun _ => [if c19_group_failed S g then C19_Throws else C19_Ok]) g.
+Proof.
+  intros S g. unfold c19_expected, c19_obs_of. rewrite map_map.
+  rewrite <- (map_nth_seq _ _ (fun _ : list c19_outcome => [if c19_group_failed S g then C19_Throws else C19_Ok]) [] g).
+  apply map_ext. intros r. unfold c19_outer_outcome, c19_spec_exit, c19_group_failed. cbn [fst].
+  destruct (c19_first_fail g 0 S) as [k|]; cbn [fst]; [|reflexivity].
+  destruct (c19_is_throw (c19_outcome_at g r k)); reflexivity.
+Qed.
+
+Lemma P_nested : forall (S : nat) (groups : list (list (list c19_outcome))),
+  1 <= S -> Forall (Forall (fun os => length os = S)) groups ->
+  c19_nested_run groups =
+  (map (c19_expected true S) groups, c19_expected true 1 (c19_outer_outs S groups)).
+Proof.
+  intros S groups HS Hg. unfold c19_nested_run.
+  assert (Hin : map (c19_sections_run true) groups = map (c19_expected true S) groups).
+  { induction Hg as [|g groups Hl _ IH]; [reflexivity|]. cbn [map]. rewrite IH. f_equal. apply P_agreement; assumption. }
+  rewrite Hin. f_equal.
+  assert (Hfin : forallb c19_is_finished (map (c19_expected true S) groups) = true).
+  { clear. induction groups as [|g groups IH]; [reflexivity|]. cbn [map forallb]. rewrite IH. reflexivity. }
+  rewrite Hfin.
+  assert (Houts : map (fun o => [c19_outer_outcome o]) (concat (map c19_obs_of (map (c19_expected true S) groups))) = c19_outer_outs S groups).
+  { unfold c19_outer_outs. clear. induction groups as [|g groups IH]; [reflexivity|].
+    cbn [map concat]. rewrite map_app, IH, outer_outcome_expected. reflexivity. }
+  rewrite Houts. apply P_agreement; [lia|].
+  unfold c19_outer_outs. rewrite Forall_forall. intros os Hin'. apply in_concat in Hin'. destruct Hin' as (l & Hl & Hos).
+  rewrite in_map_iff in Hl. destruct Hl as (g & <- & _). rewrite in_map_iff in Hos. destruct Hos as (x & <- & _). reflexivity.
+Qed.
+
+(* reading: the outer checkpoint agrees on "some process anywhere failed": if some group failed NO process leaves the outer
+   scope normally, otherwise all do *)
+Lemma outer_nfail_zero_iff : forall S groups,
+  c19_nfail (c19_outer_outs S groups) 0 = 0 <-> forallb (fun g => negb (c19_group_failed S g) || match g with [] => true | _ => false end) groups = true.
+Proof.
+  intros S groups. unfold c19_outer_outs, c19_nfail. induction groups as [|g groups IH]; [split; reflexivity|].
+  cbn [map concat forallb]. rewrite filter_app, app_length.
+  destruct (c19_group_failed S g) eqn:E; cbn [negb orb].
+  - destruct g as [|os g]; cbn [map filter length].
+    + rewrite andb_true_l. exact IH.
+    + cbn [nth c19_is_ok negb length]. split; [intros H; simpl in H; lia|intros H; discriminate].
+  - rewrite andb_true_l.
+    assert (Hz : length (filter (fun os : list c19_outcome => negb (c19_is_ok (nth 0 os C19_Ok))) (map (fun _ : list c19_outcome => [C19_Ok]) g)) = 0).
+    { clear. induction g as [|os g IHg]; [reflexivity|]. cbn [map filter nth c19_is_ok negb]. exact IHg. }
+    rewrite Hz. exact IH.
+Qed.
+
+Lemma P_example_nested :
+  c19_nested_run [ [[C19_Ok]; [C19_ReportsFailure]] ; [[C19_Ok]; [C19_Ok]; [C19_Ok]] ] =
+  ( [ C19_Finished [(Some (C19_GuardError 0 1), 1); (Some (C19_GuardError 0 1), 1)];
+      C19_Finished [(Some C19_Normal, 1); (Some C19_Normal, 1); (Some C19_Normal, 1)] ],
+    C19_Finished [(Some (C19_UserExc 0), 1); (Some (C19_UserExc 0), 1);
+                  (Some (C19_GuardError 0 2), 1); (Some (C19_GuardError 0 2), 1); (Some (C19_GuardError 0 2), 1)] ).
+Proof. vm_compute. reflexivity. Qed.
+
+Lemma P_example_sequential :
+  c19_scopes_run [(true, [[C19_Ok; C19_Throws]; [C19_Ok; C19_Ok]]); (false, [[C19_ReportsFailure]; [C19_Ok]])] =
+  [ C19_Finished [(Some (C19_UserExc 2), 2); (Some (C19_GuardError 2 1), 2)];
+    C19_Finished [(Some (C19_GuardError 1 1), 1); (Some (C19_GuardError 1 1), 1)] ].
+Proof. vm_compute. reflexivity. Qed.
+
+(* ------------------------------------------------------------------------------------------ *)
+(** * split communicators: c19_groups is the partition of the world ranks by colour *)
+
+Lemma in_group_of : forall colors c r, In r (c19_group_of colors c) <-> r < length colors /\ nth r colors 0 = c.
+Proof.
+  intros colors c r. unfold c19_group_of. rewrite filter_In, in_seq, Nat.eqb_eq. split; intros (A & B); (split; [lia|exact B]).
+Qed.
+
+Lemma P_groups_partition : forall colors r, r < length colors ->
+  In (c19_group_of colors (nth r colors 0)) (c19_groups colors) /\
+  (forall g, In g (c19_groups colors) -> In r g -> g = c19_group_of colors (nth r colors 0)) /\
+  In r (c19_group_of colors (nth r colors 0)).
+Proof.
+  intros colors r Hr. unfold c19_groups. repeat split.
+  - apply in_map. apply nodup_In. apply nth_In. exact Hr.
+  - intros g Hg Hin. rewrite in_map_iff in Hg. destruct Hg as (c & <- & _). apply in_group_of in Hin. destruct Hin as (_ & ->). reflexivity.
+  - apply in_group_of. split; [exact Hr|reflexivity].
+Qed.
+
+Lemma P_groups_shape : forall colors g, In g (c19_groups colors) ->
+  g <> [] /\ NoDup g /\ (forall r, In r g -> r < length colors) /\ (forall r r', In r g -> In r' g -> nth r colors 0 = nth r' colors 0).
+Proof.
+  intros colors g Hg. unfold c19_groups in Hg. rewrite in_map_iff in Hg. destruct Hg as (c & <- & Hc). rewrite nodup_In in Hc.
+  repeat split.
+  - destruct (In_nth colors c 0 Hc) as (r & Hr & E). intros Hnil.
+    assert (Hin : In r (c19_group_of colors c)) by (apply in_group_of; split; assumption). rewrite Hnil in Hin. destruct Hin.
+  - unfold c19_group_of. apply NoDup_filter. apply seq_NoDup.
+  - intros r Hin. apply in_group_of in Hin. tauto.
+  - intros r r' H1 H2. apply in_group_of in H1. apply in_group_of in H2. destruct H1 as (_ & ->). destruct H2 as (_ & ->). reflexivity.
+Qed.
+
+Lemma P_groups_disjoint_count : forall colors, NoDup (c19_groups colors).
+Proof.
+  intros colors. unfold c19_groups.
+  assert (H : forall l, NoDup l -> (forall c, In c l -> In c colors) -> NoDup (map (c19_group_of colors) l)).
+  { induction l as [|c l IH]; intros Hnd Hsub; [constructor|]. inversion Hnd as [|? ? Hnotin Hnd']; subst. cbn [map]. constructor.
+    - intros Hin. rewrite in_map_iff in Hin. destruct Hin as (c' & E & Hc').
+      destruct (In_nth colors c 0 (Hsub c (or_introl eq_refl))) as (r & Hr & Er).
+      assert (Hin : In r (c19_group_of colors c)) by (apply in_group_of; split; assumption).
+      rewrite <- E in Hin. apply in_group_of in Hin. destruct Hin as (_ & E'). rewrite Er in E'. subst c'. exact (Hnotin Hc').
+    - apply IH; [exact Hnd'|]. intros c0 H0. apply Hsub. right. exact H0. }
+  apply H; [apply NoDup_nodup|]. intros c Hc. rewrite nodup_In in Hc. exact Hc.
+Qed.
